@@ -21,10 +21,10 @@ Print Assumptions C14_from_equiv.
 
 (* what the converter model emits for the statement forms (tie between the operations above and Lower.v) *)
 Theorem C14_lower_import_alias : forall g name x, n_kind g = NGlobal ->
-  lower_import g [(name, Some x)] = inl [NamedExpr x (call (Attribute (Name "importlib") "import_module") [cstr name])].
+  lower_import g [(name, Some x)] = inl [NamedExpr x (call (Attribute (Name "__ol_importlib") "import_module") [cstr name])].
 Proof. exact lower_import_alias. Qed.
 Theorem C14_lower_import_plain : forall g name, n_kind g = NGlobal -> has_dot name = false ->
-  lower_import g [(name, None)] = inl [NamedExpr name (call (Attribute (Name "importlib") "import_module") [cstr name])].
+  lower_import g [(name, None)] = inl [NamedExpr name (call (Attribute (Name "__ol_importlib") "import_module") [cstr name])].
 Proof. exact lower_import_plain. Qed.
 Theorem C14_lower_import_dotted : forall g name, n_kind g = NGlobal -> has_dot name = true ->
   lower_import g [(name, None)] = inl [NamedExpr (before_dot name) (call (Name "__import__") [cstr name])].
